@@ -67,7 +67,7 @@ Eval(e, env) ==
     [] e.op = "neg" -> Neg(Eval(e.a, env))
     [] e.op = "sq"  -> LET w == Eval(e.a, env) IN Mul(w, w)
 
-EvalVec(es, env) == [i \in 1..Len(es) |-> Eval(es[i], env)]
+EvalVec(es, env) == Tup([i \in 1..Len(es) |-> Eval(es[i], env)])
 
 (* Set of offsets occurring in an expression (for constraint placement). *)
 RECURSIVE Offsets(_)
@@ -106,5 +106,5 @@ SumExprs(es, i) == IF i > Len(es) THEN CI(0) ELSE Plus(es[i], SumExprs(es, i + 1
 
 \* total derivative of e along x' = rhs : de/dt + sum_i de/dx_i * rhs_i
 Der(e, rhs) == Plus(DLeaf(e, "t", 0),
-                    SumExprs([i \in 1..Len(rhs) |-> Times(DLeaf(e, "x", i), rhs[i])], 1))
+                    SumExprs(Tup([i \in 1..Len(rhs) |-> Times(DLeaf(e, "x", i), rhs[i])]), 1))
 =============================================================================
